@@ -64,7 +64,12 @@ def class_spec(draw, idx, prev):
             if typ == "list":
                 d = "factory"
         fields.append((n, typ, d))
+    # the class re-declares the last field of its dataclass base with a new default (everything after it then needs one)
+    redeclare = bool(base) and base != "hand" and not base.endswith("hand") and draw(st.integers(0, 3)) == 0
+    if redeclare:
+        fields = [(n, typ, d or ("factory" if typ == "list" else "lit")) for n, typ, d in fields]
     return {
+        "redeclare": redeclare,
         "name": name, "frozen": frozen, "eq": eq, "order": order, "unsafe_hash": unsafe_hash,
         "base": base, "base_has_default": base_has_default, "fields": fields,
         "dict": draw(st.booleans()), "weakref": draw(st.booleans()),
@@ -147,6 +152,8 @@ def emit(specs, slotted: bool) -> str:
             # a decoration that is expected to fail: not a dataclass
             out.append(f"try:\n    @classes.slotted(dict={s['dict']}, weakref={s['weakref']})\n    class {s['name']}:\n        x: int = 0\nexcept Exception as e:\n    ERRORS.append(('poison', {i}, type(e).__name__))\n")
         body = []
+        if s.get("redeclare"):
+            body.append("    b: str = 'redeclared'")
         for n, typ, d in s["fields"]:
             if d is None:
                 body.append(f"    {n}: {typ}")
@@ -292,6 +299,8 @@ def check_program(specs, col, tag):
             col.label(f"user-state-hooks:{s['user_state']},frozen={s['frozen']}")
             if s.get("preuse"):
                 col.label("used-before-decoration")
+            if s.get("redeclare"):
+                col.label("redeclares-base-field")
         for _, i, msg in [e for e in s_.ERRORS if e[0] == "preuse"]:
             # copying an instance of the not yet decorated class worked in the plain module (no ERRORS there)
             col.violation("behaves-like-original", case, f"class #{i} {specs[i]['name']} (before its own decoration, bases already slotted): copy raised {msg}",
